@@ -147,7 +147,7 @@ func init() {
 
 type c20step struct{ op, h, rnd int }
 
-var c20opNames = []string{"New(prefix,{memory})", "New(prefix,{cpu,memory,pids})", "h.New(child)", "h.Random(r*)", "h.Nest(n)", "OpenExisting(prefix)", "AddProc(helper)", "SetMemoryLimit", "SetProcLimit", "SetCPUBandwidth", "Destroy", "h.New(planted) [sub-group pre-existing under the memory hierarchy only]", "New(prefix,{memory}) that must fail [v2: controller cannot be enabled; v1: final name with a newline below the prefix]"}
+var c20opNames = []string{"New(prefix,{memory})", "New(prefix,{cpu,cpuset,memory,pids})", "h.New(child)", "h.Random(r*)", "h.Nest(n)", "OpenExisting(prefix)", "AddProc(helper)", "SetMemoryLimit", "SetProcLimit", "SetCPUBandwidth", "Destroy", "h.New(planted) [sub-group pre-existing under the memory hierarchy only]", "New(prefix,{memory}) that must fail [v2: controller cannot be enabled; v1: final name with a newline below the prefix]"}
 
 // c20sequenceChoices makes the choices of one operation sequence; ok=false: the sequence is not well formed
 func c20sequenceChoices(x *mc.X, maxOps int) (steps []c20step, ok bool) {
@@ -174,7 +174,7 @@ func c20sequenceChoices(x *mc.X, maxOps int) (steps []c20step, ok bool) {
 }
 
 func c20sequence(x *mc.X, maxOps int) {
-	opNames := []string{"New(prefix,{memory})", "New(prefix,{cpu,memory,pids})", "h.New(child)", "h.Random(r*)", "h.Nest(n)", "OpenExisting(prefix)", "AddProc(helper)", "SetMemoryLimit", "SetProcLimit", "SetCPUBandwidth", "Destroy", "h.New(planted) [sub-group pre-existing under the memory hierarchy only]", "New(prefix,{memory}) that must fail [v2: controller cannot be enabled; v1: final name with a newline below the prefix]"}
+	opNames := []string{"New(prefix,{memory})", "New(prefix,{cpu,cpuset,memory,pids})", "h.New(child)", "h.Random(r*)", "h.Nest(n)", "OpenExisting(prefix)", "AddProc(helper)", "SetMemoryLimit", "SetProcLimit", "SetCPUBandwidth", "Destroy", "h.New(planted) [sub-group pre-existing under the memory hierarchy only]", "New(prefix,{memory}) that must fail [v2: controller cannot be enabled; v1: final name with a newline below the prefix]"}
 	steps, ok := c20sequenceChoices(x, maxOps)
 	if !ok {
 		x.Outcome("n/a:no-handle-yet")
@@ -298,7 +298,7 @@ func c20sequence(x *mc.X, maxOps int) {
 		case 0, 1:
 			ct := &cgroup.Controllers{Memory: true}
 			if s.op == 1 {
-				ct = &cgroup.Controllers{CPU: true, Memory: true, Pids: true}
+				ct = &cgroup.Controllers{CPU: true, CPUSet: true, Memory: true, Pids: true}
 			}
 			if c20v2 {
 				ct = &cgroup.Controllers{} // no controller can be enabled in this kernel's v2 hierarchy
@@ -385,6 +385,10 @@ func c20sequence(x *mc.X, maxOps int) {
 			other.Start()
 			beforeOther := c20membership(other.Process.Pid)
 			err := h.cg.AddProc(helper.Process.Pid)
+			if err != nil {
+				// a group this handle stands for accepts a live process (a cpuset group, for one, only once its cpus/mems were filled in)
+				x.Failf("C20/seq/addproc-failed", "%s: AddProc of a live process failed: %v (membership now %v)", ctx(i), err, c20membership(helper.Process.Pid))
+			}
 			if err == nil {
 				for _, hp := range cgroup.VerifPaths(h.cg) {
 					if got := c20memberDir(helper.Process.Pid, hp); got != hp {
